@@ -121,6 +121,7 @@ def run_check(pid, cfg, tier, seed, args, t0):
     solver_time = 0.0
     by_backend = {}
     vacuity = {'functions_with_feasible_exit': 0, 'functions': 0}
+    uncovered = {}
     # ---- 1. deductive part ---------------------------------------------------------------
     groups = [sidecars] if sidecars else []
     for extra in cfg.get('more_sidecar_groups', []):
@@ -145,9 +146,13 @@ def run_check(pid, cfg, tier, seed, args, t0):
             feasible_exits = sum(v for k, v in rep.outcomes.items() if k in ('return', 'raise', 'cut'))
             if feasible_exits:
                 vacuity['functions_with_feasible_exit'] += 1
+            unreached = ['line %d: %s' % (ln, text) for ln, text in sorted(rep.statements.items()) if ln not in rep.covered]
+            uncovered[target] = unreached
             functions.append({'function': target, 'file': os.path.relpath(rep.file, REPO) if rep.file else None,
                               'lines': list(rep.lines), 'sha256_16': rep.sha, 'paths': rep.paths,
                               'outcomes': rep.outcomes, 'dropped_by_extraction': rep.dropped,
+                              'statements': len(rep.statements),
+                              'statements_not_reached_by_a_live_path': unreached,
                               'cpu_s': round(rep.time, 2)})
             assumptions |= rep.assumptions
             trusted |= rep.trusted
@@ -226,9 +231,26 @@ def run_check(pid, cfg, tier, seed, args, t0):
     now = set(o['id'] for o in obligations)
     if args.relock:
         lock[pid] = sorted(o['id'] for o in obligations if o['status'] == 'discharged')
+        # vacuity lock: how many statements of each function no live path reaches (reviewed at relock time)
+        if tier == 'thorough' or not cfg.get('quick_skip_targets'):
+            lock[pid + ':unreached'] = {t: len(u) for t, u in sorted(uncovered.items())}
+        else:
+            prev = lock.get(pid + ':unreached', {})
+            prev.update({t: len(u) for t, u in uncovered.items()})
+            lock[pid + ':unreached'] = prev
         json.dump(lock, open(os.path.join(ROOT, 'obligations.lock'), 'w'), indent=0, sort_keys=True)
         print('relocked %d obligations for %s' % (len(lock[pid]), pid))
+        for t, u in sorted(uncovered.items()):
+            if u:
+                print('  not reached by a live path in %s:' % t)
+                for line in u:
+                    print('     ' + line)
         locked = set(lock[pid])
+    for t, u in sorted(uncovered.items()):
+        allowed = lock.get(pid + ':unreached', {}).get(t)
+        if allowed is not None and len(u) > allowed:
+            undecided.append({'obligation': t + '.reachability', 'reason': 'vacuity guard: %d statements are reached by no '
+                              'satisfiable path (%d when the contracts were locked): %s' % (len(u), allowed, '; '.join(u)[:600])})
     for oid in sorted(locked - now):
         # obligations that only exist on exceptional paths vanish when such a path is no longer feasible:
         # that is a success, not a missing proof
